@@ -21,7 +21,7 @@ import lib
 from lib import clist
 
 REQ = ("From Coq Require Import NArith ZArith QArith List Bool.\nImport ListNotations.\n"
-       "From PV Require Import Deps.PyImport Deps.Imports Deps.Metrics Deps.ImportsWf Deps.DepsRun.\nOpen Scope N_scope.")
+       "From PV Require Import Deps.PyImport Deps.Imports Deps.Metrics Deps.ImportsWf Deps.ImportsRun.\nOpen Scope N_scope.")
 
 POSITIONS = ["PModule", "PDef", "PClass", "PIf", "PElif", "PElse", "PTry", "PExcept", "PTryElse", "PFinally", "PWith",
              "PLoop", "PLoopElse", "PMatch"]
